@@ -10,7 +10,7 @@ CFG = {
              "holding a public.kern1./public.kern2. group; distinct by input tokens"),
     "exhaustive": {"quick": True, "thorough": True},
     "search_timeout": 200,
-    "exhaustive_note": "triples over the 6-name pool with <=3 groups (one private member each), <=1 (quick) / <=3 (thorough) pairs, glyph set empty or one group name; the random part is not exhaustive",
+    "exhaustive_note": "triples over the 6-name pool (one private member per group): quick <=3 groups x <=1 pair (format 2) and <=2 groups x <=2 pairs (format 1); thorough <=3 groups x <=3 pairs (format 2) and <=3 groups x <=2 pairs (format 1); glyph set empty or one group name (cases with >=2 pairs in the larger enumeration: empty glyph set only); the random part is not exhaustive",
     "trusted_base": COMMON_TRUST + [
         "modelled, not verified: plist parsing of groups.plist / kerning.plist into BTreeMaps (the harness writes the files, norad's observation is compared with the maps the harness intended)",
         "decimal rendering of the uniqueness counter (`{}` of an integer) is the parameter `sfx`; the theorems need it injective and digit-free of control characters, the driver instantiates Nat.repr",
